@@ -6,6 +6,8 @@ does both; census of long-lived mutable state (instance attributes written outsi
 mutables) equals the reviewed set, and per-call transaction objects never escape onto long-lived objects; no
 handler on the I/O path swallows an exception (only the user's progress callback may be contained); each transport's
 close() leaves its handle reset on every normal path.  Not decided: "every later operation behaves correctly".
+The reset and the handshake form one critical section of the transport lock and the store is cleared under that lock (DOM-reset);
+the handshake rules of C05 ("a subsequent connect() to a healthy device succeeds").
 """
 import ast
 
